@@ -87,6 +87,18 @@ def _cjob(job, emit):
                 rec["status"] = "compiled"
                 rec["unit"] = unit
                 rec["info"] = info
+                if job.get("heap"):
+                    # the IR after the backend analyses (with Free statements), for the HeapOK monitor
+                    from .analyzed import analyzed_proc
+                    from .export import make_unit
+                    from .inputs import gen_inputs
+                    signal.alarm(60)
+                    ap = analyzed_proc(q.INTERNAL_proc())
+                    hu, hex_ = make_unit(f"{pg}|{how}|analysed", ap, None, mode="F", frees=True)
+                    hu["inputs"] = [{"a": s_} for s_ in gen_inputs(ap, hex_.cfgtypes(), "F", rng, cap=job["cap"])]
+                    signal.alarm(0)
+                    rec["heap_unit"] = hu
+                    rec["analysed_text"] = str(ap)[:4000]
             except ExportError as e:
                 signal.alarm(0)
                 rec["status"] = "export-error"
